@@ -103,6 +103,9 @@ def make_judges(ctx):
             ctx.violation('parse', '%s(dtype=%r) produced %s, the string denotes %s' % (ev.op, s, R.dtype_fxp(*got), R.dtype_fxp(sg, w, nf)), ev)
         elif cx and not post.is_complex:
             ctx.violation('parse_complex', '%s(dtype=%r) produced a non-complex object' % (ev.op, s), ev)
+        elif cx and (ev.op == 'resize' or d.get('val') is None or d.get('raw')) and post.cfg.get('_dtype_notation') == 'fxp' and not str(post.dtype).endswith('-complex'):
+            # the dtype string and the (signed, n_word, n_frac, complex) tuple determine each other
+            ctx.violation('parse_complex', 'after %s(dtype=%r) the dtype string is %r (no complex suffix)' % (ev.op, s, post.dtype), ev)
         elif ev.op == '__init__' and not cx and post.is_complex and d.get('val') is None:
             ctx.violation('parse_complex', '%s(dtype=%r) produced a complex object' % (ev.op, s), ev)
         cfgnot = post.cfg.get('_dtype_notation')
@@ -193,6 +196,17 @@ def run_case(case, ctx):
                 near2 = _try(lambda: Fxp(None, s, w, nf))
                 if near2 is not None:
                     _try(lambda: near2.resize(dtype='%s%d.%d' % (fams[j % len(fams)], m, nf)))
+            # the configured notation is switched on a live object
+            if j % 3 == 0:
+                y = _try(lambda: Fxp(None, s, w, nf, dtype_notation=cfgnot))
+                if y is not None:
+                    other = 'Q' if cfgnot == 'fxp' else 'fxp'
+                    _try(lambda: setattr(y.config, 'dtype_notation', other))
+                    _try(lambda: y.get_dtype(other))
+                    _try(lambda: y.get_dtype())
+                    _try(lambda: y.get_dtype(cfgnot))
+                    _try(lambda: y.config.update(dtype_notation=cfgnot))
+                    _try(lambda: y.get_dtype(cfgnot))
             # complex suffix
             if w <= 52 and (ctx.tier == 'thorough' or j % 5 == 0):
                 cx = R.dtype_fxp(s, w, nf, True)
@@ -202,6 +216,13 @@ def run_case(case, ctx):
                     _try(lambda: z.get_dtype('fxp'))
                     _try(lambda: z.get_dtype('Q'))
                     _try(lambda: Fxp(None, dtype=z.get_dtype('fxp')))
+                # a real object made complex by a dtype string only
+                rz = _try(lambda: Fxp(None, s, w, nf + (1 if j % 2 else -1), dtype_notation=cfgnot))
+                if rz is not None:
+                    _try(lambda: rz.resize(dtype=cx))
+                    _try(lambda: rz.get_dtype('fxp'))
+                    _try(lambda: Fxp(None, dtype=rz.get_dtype('fxp')))
+                _try(lambda: Fxp(1, raw=True, dtype=cx))
                 z2 = _try(lambda: Fxp(1 + 2j, s, max(w, 4), nf if w >= 4 else 0))
                 if z2 is not None:
                     _try(lambda: z2.get_dtype())
